@@ -7,6 +7,7 @@ import (
 	"io"
 	"math/big"
 	"os"
+	"sort"
 )
 
 // Family returns one of the genesis families.
@@ -107,10 +108,19 @@ func RunRandom(seed int64, g *GenesisSpec, naccts int, p Profile, root string, e
 			switch path {
 			case "gov_params", "stakes/total_power", "stakes/voting_power":
 			case "proposal":
-				if ids := ToView(Project(r.App, r.KR, ProjOpts{})).Props; len(ids) > 0 && gen.Rng.Intn(2) == 0 {
-					for id := range ids {
-						data = r.KR.HashOf(id)
-						break
+				if pj := Project(r.App, r.KR, ProjOpts{}); gen.Rng.Intn(2) == 0 {
+					// by hash: a proposal in voting or an adopted one waiting for its applying height
+					var ids []string
+					for _, f := range []string{"props", "fprops"} {
+						if m, ok := pj[f].(J); ok {
+							for id := range m {
+								ids = append(ids, id)
+							}
+						}
+					}
+					sort.Strings(ids)
+					if len(ids) > 0 {
+						data = r.KR.HashOf(ids[gen.Rng.Intn(len(ids))])
 					}
 				}
 			default:
